@@ -49,7 +49,7 @@ func checkC18(c *Check) {
 	// hands its metadata and failed list to (`failedRcptInfo(meta, failedRcpts)`). Any loop form.
 	var lit *ast.CompositeLit
 	var loop *ElemLoop
-	rbld := r       // the function that contains the loop
+	rbld := r          // the function that contains the loop
 	bFailed := failedP // … and its view of the failed list
 	findLoop := func(g *RuleCtx) (*ast.CompositeLit, *ElemLoop) {
 		var fl *ast.CompositeLit
@@ -682,7 +682,6 @@ func c18Format(c *Check) {
 	}
 	c.Hold("R9", "emitDSN:format-flag", gen.Pos(), msg == "", msg)
 }
-
 
 // R10: the bounce transaction itself
 func c18Bounce(c *Check) {
